@@ -5,7 +5,8 @@ package utreexo
 // C05 — an accepted block is applied identically by every implementation.
 // State after an honest history.  Targets: positions of K live leaves in any order.  Claimed hashes
 // and proof hashes (canonical length + up to J trailing extra hashes) are fully symbolic; the path
-// condition is "Verify accepts".  Then the same block goes to every implementation.
+// condition is "Verify accepts" (or one of the forests' own Verify methods, acc=1..3).  Then the same
+// block goes to every implementation.
 
 func c05CheckRootsKF(roots []Hash, n uint64, v *refView, id string, kf bool) {
 	verifAssert(n == v.n, id+".numLeaves")
@@ -34,7 +35,12 @@ func HarnessC05AcceptedBlock() {
 	}
 	canon := len(v.proofHashes(idx))
 	m := canon + verifChoose("junk", 0, verifParam("J", 1))
-	hs := make([]Hash, len(tg))
+	// lenFree=1: the number of claimed hashes is free too (0..K), not tied to the number of targets
+	nh := len(tg)
+	if verifParam("lenFree", 0) == 1 {
+		nh = verifChoose("nhashes", 0, len(tg))
+	}
+	hs := make([]Hash, nh)
 	pf := make([]Hash, m)
 	for i := range hs {
 		hs[i] = verifNondetHash("claim")
@@ -44,7 +50,17 @@ func HarnessC05AcceptedBlock() {
 		pf[i] = verifNondetHash("proof")
 	}
 	proof := Proof{Targets: tg, Proof: pf}
+	// acc: whose acceptance is the path condition: 0 the stand-alone Verify, 1 Pollard.Verify, 2 the full
+	// map forest's Verify, 3 the partial map forest's Verify
 	idxs, err := Verify(w.st, hs, proof)
+	switch verifParam("acc", 0) {
+	case 1:
+		err = w.p.Verify(hs, proof, false)
+	case 2:
+		err = w.full.Verify(hs, proof, false)
+	case 3:
+		err = w.part.Verify(hs, proof, false)
+	}
 	if err != nil {
 		verifReach("C05.rejected")
 		return
